@@ -27,6 +27,11 @@ Proof. intros. destruct st; try reflexivity. congruence. Qed.
 Lemma html_float : forall s st cls, st <> SCloErr -> html (HFloat s) st cls = Some ([OWrite s], cls).
 Proof. intros. destruct st; try reflexivity. congruence. Qed.
 
+Lemma html_file : forall name mime b64 size st cls, st <> SCloErr ->
+  html (HFile name mime b64 size) st cls =
+  Some ([OOpen s_a; OAttr s_href (file_href mime b64); OAttr s_download name; OWrite (file_text name size); OClose], cls).
+Proof. intros. destruct st; try reflexivity. congruence. Qed.
+
 Lemma html_str : forall s st cls, st <> SCloErr -> html (HS s) st cls = Some (html_string inline s st cls).
 Proof. intros. destruct st; try reflexivity. congruence. Qed.
 
@@ -247,7 +252,8 @@ Qed.
 (* ---------- attribute lists ToHtml uses ---------- *)
 
 Definition attr_shapes : list (list str) :=
-  [[]; [s_style]; [s_class]; [s_colspan]; [s_colspan; s_style]; [s_colspan; s_class]; [s_href]; [s_href; s_target]].
+  [[]; [s_style]; [s_class]; [s_colspan]; [s_colspan; s_style]; [s_colspan; s_class]; [s_href]; [s_href; s_target];
+   [s_href; s_download]].
 
 Lemma forallb_fst : forall (P : str -> bool) (a : list (str * str)),
   forallb (fun kv => P (fst kv)) a = forallb P (map fst a).
@@ -520,16 +526,18 @@ Fixpoint hval_ind' (P : hval -> Prop)
   (HM_ : forall l, Forall (fun kv => P (snd kv)) l -> P (HM l))
   (HFm : forall c cs st v, P v -> P (HFmt c cs st v))
   (HLk : forall l v, P v -> P (HLnk l v))
+  (HFi : forall name mime b64 size, P (HFile name mime b64 size))
   (v : hval) : P v :=
   match v with
   | HS s => HS_ s
   | HFloat s => HF_ s
   | HL l => HL_ l ((fix go (l : list hval) : Forall P l :=
-                      match l with [] => Forall_nil _ | x :: r => Forall_cons _ (hval_ind' P HS_ HF_ HL_ HM_ HFm HLk x) (go r) end) l)
+                      match l with [] => Forall_nil _ | x :: r => Forall_cons _ (hval_ind' P HS_ HF_ HL_ HM_ HFm HLk HFi x) (go r) end) l)
   | HM l => HM_ l ((fix go (l : list (str * hval)) : Forall (fun kv => P (snd kv)) l :=
-                      match l with [] => Forall_nil _ | x :: r => Forall_cons _ (hval_ind' P HS_ HF_ HL_ HM_ HFm HLk (snd x)) (go r) end) l)
-  | HFmt c cs st v => HFm c cs st v (hval_ind' P HS_ HF_ HL_ HM_ HFm HLk v)
-  | HLnk l v => HLk l v (hval_ind' P HS_ HF_ HL_ HM_ HFm HLk v)
+                      match l with [] => Forall_nil _ | x :: r => Forall_cons _ (hval_ind' P HS_ HF_ HL_ HM_ HFm HLk HFi (snd x)) (go r) end) l)
+  | HFmt c cs st v => HFm c cs st v (hval_ind' P HS_ HF_ HL_ HM_ HFm HLk HFi v)
+  | HLnk l v => HLk l v (hval_ind' P HS_ HF_ HL_ HM_ HFm HLk HFi v)
+  | HFile name mime b64 size => HFi name mime b64 size
   end.
 
 (* toHtml *)
@@ -596,7 +604,7 @@ Qed.
 
 Theorem html_seg : forall v, PQ v.
 Proof.
-  induction v as [s|s|items IH|l IH|c cs fs inner IH|lk inner IH] using hval_ind'.
+  induction v as [s|s|items IH|l IH|c cs fs inner IH|lk inner IH|name mime b64 size] using hval_ind'.
   - (* string / int / bool *)
     assert (HP : Ph (HS s)).
     { intros strict st cls Ll Lst Hs. destruct (sty_dec st) as [->|Hn]; [apply seg_clo|].
@@ -682,6 +690,21 @@ Proof.
       destruct (html inner st cls) as [[o cls1]|]; [|exact I]. cbn [bind seg] in *.
       destruct IP as [f [Eo Hf]]. subst o. exists [El s_a [(s_href, lk)] f]. split; [rewrite ops_el; reflexivity|].
       apply okels_okf. apply el_ok; [in_elems|in_shapes| |exact Hf]. cbn [forallb snd]. rewrite Lk. reflexivity. }
+    split; [exact HP|]. split; [apply td_plain; [reflexivity|exact HP]|discriminate].
+  - (* File *)
+    assert (HP : Ph (HFile name mime b64 size)).
+    { intros strict st cls Ll Lst Hs. destruct (sty_dec st) as [->|Hn]; [apply seg_clo|].
+      rewrite html_file by exact Hn. cbn [legal_h] in Ll.
+      apply andb_true_iff in Ll. destruct Ll as [Ll Lsz]. apply andb_true_iff in Ll. destruct Ll as [Ll Lb].
+      apply andb_true_iff in Ll. destruct Ll as [Ln Lm].
+      assert (Lh : legal (file_href mime b64) = true).
+      { unfold file_href. rewrite !legal_app, Lb. destruct mime; [reflexivity|]. rewrite Lm. reflexivity. }
+      assert (Lt : legal (file_text name size) = true).
+      { unfold file_text. rewrite !legal_app, Ln, Lsz. reflexivity. }
+      exists [El s_a [(s_href, file_href mime b64); (s_download, name)] (map Tx [file_text name size])].
+      split; [reflexivity|]. apply okels_okf. apply el_ok; [in_elems|in_shapes| |].
+      - cbn [forallb snd]. rewrite Lh, Ln. reflexivity.
+      - apply okf_txs. cbn [forallb]. rewrite Lt. reflexivity. }
     split; [exact HP|]. split; [apply td_plain; [reflexivity|exact HP]|discriminate].
 Qed.
 
